@@ -167,8 +167,8 @@ JUDGES = {"num": judge_num, "same": judge_same, "bytes": judge_bytes}
 
 def shards(tier, seed):
     T = tier == "thorough"
-    return [{"name": "num-%d" % i, "count": 5000 if T else 500, "idx": i} for i in range(12)] + \
-           [{"name": "bytes-%d" % i, "count": 5000 if T else 500} for i in range(4)]
+    return [{"name": "num-%d" % i, "count": 30000 if T else 500, "idx": i} for i in range(12)] + \
+           [{"name": "bytes-%d" % i, "count": 30000 if T else 500} for i in range(4)]
 
 
 def _small_tx(rng, kind=None):
